@@ -22,8 +22,17 @@ import (
 // Fault enumeration: every query history x every fault point x every fault kind.
 
 var c19Lists = []scen.ListSpec{
-	{ID: 1, Text: "! list 1 (file)\n||example.org^\n||example.org/ads\n/ex[a-z]+le\\.net/\n/ad$domain=example.org\n@@||example.org^$generichide\n##.g1\nexample.org##.s1\n/x$domain=example.org\n/x$domain=sub.example.org\n/x$domain=org\n/ads$domain=b.test\n/pix$domain=a.test|b.test\n"},
+	{ID: 1, Text: "! list 1 (file)\n||example.org^\n||example.org/ads\n/ex[a-z]+le\\.net/\n/ad$domain=example.org\n@@||example.org^$generichide\n##.g1\nexample.org##.s1\n/x$domain=example.org\n/x$domain=sub.example.org\n/x$domain=org\n/ads$domain=b.test\n/pix$domain=a.test|b.test\n" + c19BigRule() + "\n/cand0x\n/cand1x\n/cand2x\n/cand3x\n/cand4x\n/cand5x\n/cand6x\n/cand7x\n/cand8x\n/cand9x\n/cachedx\n"},
 	{ID: 2, Text: "# list 2 (file)\n||ads.example.com^\n0.0.0.0 example.org\n:: example.org\n127.0.0.1 hosts.test alias.test\n||blocked.test^$client=10.0.0.1\n/h[o0]sts\\.test/\n||rw.test^$dnsrewrite=1.2.3.4\n0.0.0.0 shared.test\n0.0.0.0 only.test shared.test\n||shared2.test^\n||only2.test^$important\n"},
+}
+
+// c19BigRule returns a rule of about 1.5 KiB.
+func c19BigRule() string {
+	s := "/bigrule$domain=example.org"
+	for i := 0; i < 100; i++ {
+		s += fmt.Sprintf("|big%03d.test", i)
+	}
+	return s
 }
 
 var c19StringList = scen.ListSpec{ID: 3, Text: "||string.test^\n0.0.0.0 string-host.test\n"}
@@ -49,6 +58,10 @@ func c19Queries() []scen.Query {
 		// asked for through the other, whose bucket starts with a rule that is not in memory
 		{Kind: "netall", URL: "http://y.test/pix/ads", Src: "http://a.test/", Type: rules.TypeScript},
 		{Kind: "netall", URL: "http://y.test/pix/ads", Src: "http://b.test/", Type: rules.TypeScript},
+		{Kind: "netall", URL: "http://y.test/bigrule", Src: "http://big099.test/", Type: rules.TypeScript},
+		// one rule of a URL's many candidates is in memory, the ten in front of it are not
+		{Kind: "netall", URL: "http://y.test/cachedx", Type: rules.TypeScript},
+		{Kind: "netall", URL: "http://y.test/cand0x/cand1x/cand2x/cand3x/cand4x/cand5x/cand6x/cand7x/cand8x/cand9x/cachedx", Type: rules.TypeScript},
 		{Kind: "dns", Host: "only.test", DNSType: 1},
 		{Kind: "dns", Host: "shared.test", DNSType: 1},
 		// not a query: further engines are built over the same storage (their
@@ -459,7 +472,17 @@ func init() {
 			n, doubleFaultLen = 4, 3
 		}
 		var hists [][]int
+		// the longest histories over the core queries only (the later ones -- rules of
+		// many domains, large rules, many candidates, further engines -- need one or two steps)
+		nCore := 14
 		enum.SequencesUpTo(len(qs), n, func(s []int) bool {
+			if len(s) == n {
+				for _, q := range s {
+					if q >= nCore {
+						return true
+					}
+				}
+			}
 			if len(s) > 0 {
 				hists = append(hists, append([]int{}, s...))
 			}
@@ -512,7 +535,7 @@ func init() {
 		c.Run.Set("fault_cases", cases)
 		c.Run.Set("evaluations", evals)
 		c.Run.Set("distinct_nontrivial", cases)
-		c.Run.Set("rule", fmt.Sprintf("every query history of length 1..%d over %d queries (network/DNS/engine, each hitting a different table or list; two file-backed lists and one string list) x every fault point 0..n x 5 fault kinds (Close, either or both file handles replaced by closed descriptors, both replaced by handles of an empty file), for histories of at most %d queries also followed by every second fault at or after the first; every case is distinct; each query after the fault: no panic, every returned rule truly matches, result subset of the rules that individually match (the fault-free result plus what precedence hid), rules in memory at fault time (cache keys, sequential-table rules, string-backed rules) still served", n, len(qs), doubleFaultLen))
+		c.Run.Set("rule", fmt.Sprintf("every query history of length 1..%d over %d queries (the longest ones over the first 14) (network/DNS/engine, each hitting a different table or list; two file-backed lists and one string list) x every fault point 0..n x 5 fault kinds (Close, either or both file handles replaced by closed descriptors, both replaced by handles of an empty file), for histories of at most %d queries also followed by every second fault at or after the first; every case is distinct; each query after the fault: no panic, every returned rule truly matches, result subset of the rules that individually match (the fault-free result plus what precedence hid), rules in memory at fault time (cache keys, sequential-table rules, string-backed rules) still served", n, len(qs), doubleFaultLen))
 		c.Run.Set("exhaustive", exhaustive)
 		c.Run.Assumption("fault kinds are those reachable through the public API (RuleStorage.Close, exported FileRuleList.File); a read error in the middle of a line is injected at the block boundary (hook point file.read-next-chunk)")
 	})
